@@ -162,6 +162,55 @@ Theorem C11_file_section_agrees :
 Proof. exact (load_section_agrees table feats). Qed.
 Print Assumptions C11_file_section_agrees.
 
+(* Whole files: an entry before any section header is an error ... *)
+Theorem C11_file_entry_before_header_fails :
+  forall (line : str) (rest : list str) (c : config) (a b : str),
+    not_header line ->
+    strip (before_hash line) <> [] ->
+    split_first 61 (strip (before_hash line)) = Some (a, b) ->
+    load_lines table feats None (line :: rest) c = CExc EOther.
+Proof. exact (load_lines_entry_before_header table feats). Qed.
+Print Assumptions C11_file_entry_before_header_fails.
+
+(* ... and below a header the lines up to the next header (comments, blank
+   and invalid lines included, repeated keys in file order) are exactly the
+   dictionary-level fold of the section, to which C11_file_section_agrees
+   applies. *)
+Theorem C11_file_lines_are_section_fold :
+  forall (lines : list str) (s : str) (c : config),
+    Forall not_header lines ->
+    match load_section table feats s lines (dof c s) with
+    | Done d' ws =>
+        exists c', load_lines table feats (Some s) lines c = CDone c' ws /\
+                   dof c' s = d'
+    | Exc e => load_lines table feats (Some s) lines c = CExc e
+    | OUnmod => load_lines table feats (Some s) lines c = CUnmod
+    end.
+Proof. exact (load_lines_section table feats). Qed.
+Print Assumptions C11_file_lines_are_section_fold.
+
+(* cfg[sec] = {...} (section assignment): the section is replaced; the last
+   entry is stored as the specification says, unassigned keys are gone. *)
+Theorem C11_section_assignment :
+  forall (sec : str) (items : list (str * value)) (c c' : config)
+         (ws : list warning),
+    (forall k v w,
+        cfg_setsection table feats sec (items ++ [(k, v)]) c = CDone c' ws ->
+        spec_store table feats (lower sec) k v = Ok (Some w) ->
+        dget (dof c' (lower sec)) (lower k) = Some w) /\
+    (forall k0,
+        cfg_setsection table feats sec items c = CDone c' ws ->
+        (forall k v, In (k, v) items -> lower k <> k0) ->
+        dget (dof c' (lower sec)) k0 = None).
+Proof.
+  exact (fun sec items c c' ws =>
+           conj (fun k v w => cfg_setsection_last_wins table feats
+                                sec items k v c c' ws w)
+                (fun k0 => cfg_setsection_replaces table feats
+                             sec items c c' ws k0)).
+Qed.
+Print Assumptions C11_section_assignment.
+
 (* ConfigurationDict.items() lists every stored entry exactly once. *)
 Theorem C11_items_permutation :
   forall d : dict, Permutation (items d) d.
@@ -216,7 +265,16 @@ Theorem C11_attr_roundtrip_converters :
 Proof. exact attr_roundtrip. Qed.
 Print Assumptions C11_attr_roundtrip_converters.
 
-(* Keys without a converter (user section, min/max ranges): the attribute
+(* online_filter "<feat> min/max" (converter fnumber, partial: equality of
+   the value, not of the Python type -- a bool comes back as float, an int as
+   numpy integer). *)
+Theorem C11_attr_roundtrip_number_partial :
+  forall v w x, apply CFnumber v = Ok w -> h5 w = Ok x ->
+    exists y, apply CFnumber x = Ok y /\ nf y = nf w.
+Proof. exact attr_roundtrip_number. Qed.
+Print Assumptions C11_attr_roundtrip_number_partial.
+
+(* Keys without a converter (user section): the attribute
    layer changes the Python type into a numpy type, the value compares
    equal. *)
 Theorem C11_attr_preserves_unconverted_values :
